@@ -352,6 +352,9 @@ func (c *Ctx) effects() map[*ssa.Function]*funcEffects {
 			}
 			// closures created here may be called by callees we cannot see (sort.Slice): include their effects
 			for _, af := range fn.AnonFuncs {
+				if !c.liveFunc(af) {
+					continue
+				}
 				if ce := m[af]; ce != nil {
 					for k := range ce.trans {
 						if fe.trans.add(k) {
